@@ -292,6 +292,16 @@ class Typer:
         for _ in range(2):
             for n in f.body_nodes():
                 self._bind_stmt(f, n, e)
+        # isinstance(x, C) anywhere in the function: x may be a C (flow-insensitive narrowing)
+        for n in f.body_nodes():
+            if isinstance(n, ast.Call) and isinstance(n.func, ast.Name) and n.func.id == 'isinstance' \
+                    and len(n.args) == 2 and isinstance(n.args[0], ast.Name) and n.args[0].id in e:
+                cands = n.args[1].elts if isinstance(n.args[1], ast.Tuple) else [n.args[1]]
+                for c in cands:
+                    k = self.repo.resolve_class_expr(f.module, c, f)
+                    if k is not None:
+                        e[n.args[0].id].add('C:' + k.qual)
+                        e[n.args[0].id].discard('?')
         return e
 
     def _add(self, e: Dict[str, TSet], name: str, ts: TSet):
@@ -1024,9 +1034,12 @@ class CallGraph:
         return list(reversed(out))
 
     def callers_of(self, target_qual: str) -> List[CallSite]:
-        out = []
-        for sites in self.sites.values():
-            for s in sites:
-                if any(t.qual == target_qual for t in s.targets):
-                    out.append(s)
-        return out
+        idx = getattr(self, '_callers_idx', None)
+        if idx is None:
+            idx = {}
+            for sites in self.sites.values():
+                for s in sites:
+                    for t in s.targets:
+                        idx.setdefault(t.qual, []).append(s)
+            self._callers_idx = idx
+        return idx.get(target_qual, [])
